@@ -325,7 +325,7 @@ theorem intFloorDivI_exact (x y : I64) : outcome (intFloorDivI x y) = some (S.fl
   rw [goDiv_ok h0, if_neg h0]
   simp only [Except.bind]
   rw [goRem_ok h0]
-  simp only [Except.bind]
+  simp only []
   have hq := tdiv_inRange x.val y.val hx hy h0 h1
   have hm := tmod_inRange x.val y.val hy h0
   obtain ⟨hdiv, hpos, hneg, hnn, hnp, _⟩ := tdiv_tmod_facts x.val y.val h0
